@@ -272,7 +272,7 @@ def run(chk):
                    compare=pct_cmp, nontrivial_fn=lambda c, im: float(im) > 0)
 
     # ---------------------------------------------------------------- (c) random modified targets
-    nrand = 1500 if tier == 'quick' else 25000
+    nrand = 1500 if tier == 'quick' else 10000
     mod_cases = []
     for _ in range(nrand):
         t = gen_target(rng)
